@@ -36,9 +36,9 @@ def rich_doc(rng, with_cr):
     def node(depth):
         attrs = {}
         for k in range(rng.randrange(0, 3)):
-            attrs[rng.choice(['type', 'id', 'x', 'lang'])] = rng.choice(['v', 'a&b', '<q>', '"dq"', "s'q", 'nl\nv', 'tab\tv', 'cr\rv', 'Ünï', ''])
+            attrs[rng.choice(['type', 'id', 'x', 'lang', 'gr\u00f6\u00dfe'])] = rng.choice(['v', 'a&b', '<q>', '"dq"', "s'q", 'nl\nv', 'tab\tv', 'cr\rv', 'Ünï', ''])
         kids = [node(depth + 1) for _ in range(rng.randrange(0, 3 if depth < 3 else 1))]
-        return E(rng.choice(['mosExternalMetadata', 'mosPayload', 'em', 'b', 'studioCommand', 'x-y', 'ns_tag']), *kids,
+        return E(rng.choice(['mosExternalMetadata', 'mosPayload', 'em', 'b', 'studioCommand', 'x-y', 'ns_tag', '\u00dcberschrift', '\u65e5\u672c', 'caf\u00e9.x']), *kids,
                  text=txt(), tail=txt(), attrs=attrs)
 
     stories = []
@@ -153,6 +153,24 @@ def run_c14(tier, seed):
         if text is not None:
             states.append((tree, text))
         oc.count('rich-docs')
+    # payloads in XML namespaces (vendor metadata does that; MOS itself has none): the round trip is checked on the
+    # library alone - the model does not know namespaces, so these states are not sent to it
+    ns_payloads = ['<clip xmlns="urn:example:clip"><len>3</len></clip>', '<v:clip xmlns:v="urn:example:v" v:kind="a"><v:len>3</v:len></v:clip>',
+                   '<a xmlns="urn:a"><b xmlns="urn:b"><c xmlns=""/></b></a>', '<x xmlns:p="urn:p" p:attr="1"/>']
+    for k, pl in enumerate(ns_payloads):
+        item = '<item><itemID>n%d</itemID><mosExternalMetadata><mosSchema>s</mosSchema><mosPayload>%s</mosPayload></mosExternalMetadata></item>' % (k, pl)
+        src = '<mos><mosID>m</mosID><messageID>1</messageID><roCreate><roID>RO1</roID><roSlug>s</roSlug><story><storyID>A</storyID>%s</story></roCreate></mos>' % item
+        send = ('<mos><mosID>m</mosID><messageID>2</messageID><roStorySend><roID>RO1</roID><storyID>A</storyID><storyBody>%s<p>t</p></storyBody></roStorySend></mos>'
+                % item.replace('<item>', '<storyItem>').replace('</item>', '</storyItem>'))
+        plain = '<mos><mosID>m</mosID><messageID>1</messageID><roCreate><roID>RO1</roID><roSlug>s</roSlug><story><storyID>A</storyID></story></roCreate></mos>'
+        for label, first, msgs in ((f'namespaced payload #{k} in the roCreate', src, []), (f'namespaced payload #{k} arriving by roStorySend', plain, [send]),
+                                   (f'plain document after namespaced ones #{k}', plain, [])):
+            ro = impl.load(first)
+            original = {'message_id': ro.message_id, 'ro_id': ro.ro_id}
+            for m in msgs:
+                impl.add(ro, impl.load(m))
+            check_state(oc, 'C14', ro, TJ.to_tree(ro.xml), label, {'source': first, 'then': msgs}, original)
+            oc.count('namespaced')
     # every state of live histories
     n_hist = 80 if tier == 'quick' else 5000
     plans = []
@@ -255,6 +273,8 @@ def replay(pid, fl):
     if 'source' in fl:
         ro = impl.load(fl['source'])
         original = {'message_id': ro.message_id, 'ro_id': ro.ro_id}
+        for m in fl.get('then', []):
+            impl.add(ro, impl.load(m))
     elif 'live_history' in fl:
         lh = fl['live_history']
         ro = impl.load(lh['ro_text'])
@@ -277,7 +297,7 @@ def replay(pid, fl):
             except Exception:  # noqa: BLE001
                 pass
     tree = TJ.to_tree(ro.xml)
-    if 'source' in fl and tree != TJ.parse(fl['source']):
+    if 'source' in fl and not fl.get('then') and tree != TJ.parse(fl['source']):
         oc.failing.append({'spec': 'the loaded document differs from what the XML says'})
     check_state(oc, pid, ro, tree, 'replay', {}, original)
     print(json.dumps([f.get('spec') for f in oc.failing], indent=1))
